@@ -432,7 +432,25 @@ def value(rnd, depth=0, max_depth=4):
     return leaf(rnd)
 
 
+_REAL_TABLES = []
+
+
+def real_table(rnd):
+    """An argument / header / peer-properties table as seen in the wild
+    (vmon.gen.realistic), copied so that callers may change it."""
+    import copy
+    if not _REAL_TABLES:
+        from . import realistic
+        _REAL_TABLES.extend(realistic.argument_tables() +
+                            realistic.header_tables() +
+                            realistic.server_properties()[:8] +
+                            realistic.client_properties())
+    return copy.deepcopy(rnd.choice(_REAL_TABLES))
+
+
 def table(rnd, depth=0, max_depth=4, width=None):
+    if width is None and depth == 0 and rnd.random() < 0.04:
+        return real_table(rnd)
     if width is None:
         width = rnd.choice([0, 1, 1, 2, 3, 5]) if depth else \
             rnd.choice([0, 1, 2, 3, 4, 6, 9])
